@@ -204,13 +204,13 @@ class _ContextStream[Result]:
     def __aiter__(self) -> AsyncIterator[Result]:
         return self
 
-    def __anext__(self) -> Coroutine[Any, Any, Result]:
+    async def __anext__(self) -> Result:
         # the generator runs within the context it was prepared for - context of the consumer
         # (possibly an another task) is neither visible to the generator nor affected by it
-        return _within_context(self._context, self._generator.__anext__())  # pyright: ignore
+        return await _within_context(self._context, self._generator.__anext__())  # pyright: ignore
 
-    def aclose(self) -> Coroutine[Any, Any, None]:
-        return _within_context(self._context, self._generator.aclose())  # pyright: ignore
+    async def aclose(self) -> None:
+        await _within_context(self._context, self._generator.aclose())  # pyright: ignore
 
 
 @final
